@@ -423,7 +423,12 @@ class C20(Prop):
         props = [{"k": cps(k), "val": self.rval(rnd, 0)} for k in keys]
         if rnd.random() < 0.3:
             sv = rnd.choice([{"p": "none", "v": [], "items": []}, {"p": "str", "v": cps("color:red;border:1px solid"), "items": []},
-                             {"p": "dict", "v": [], "items": [{"k": cps("color"), "val": {"p": "str", "v": cps("red"), "items": []}}]}])
+                             {"p": "dict", "v": [], "items": [{"k": cps("color"), "val": {"p": "str", "v": cps("red"), "items": []}}]},
+                             # a style object with values that are not strings (React takes numbers and null as they are)
+                             {"p": "dict", "v": [], "items": [{"k": cps("opacity"), "val": {"p": "num", "v": cps("2.5"), "items": []}},
+                                                              {"k": cps("zIndex"), "val": {"p": "num", "v": cps("1"), "items": []}},
+                                                              {"k": cps("margin"), "val": {"p": "none", "v": [], "items": []}},
+                                                              {"k": cps("display"), "val": {"p": "str", "v": cps(" block "), "items": []}}]}])
             props.append({"k": cps("style"), "val": sv})
         return nd("C", name=rnd.choice(["Foo", "Bar", "Lib.Baz"]), props=props, kids=kids)
 
